@@ -19,8 +19,17 @@ with the scripted answer).  The REAL method (`sync`, `_sync_one_entry`, `pre_syn
 (or escaping exception), the sequence of leaf calls with the side they address, and the entry afterwards (abstracted back:
 flags, zeroed peer, ignore reason, exists/saved-exists, relations, priority) are compared with the model's line.
 
-`check_engine_tables(res, tier, seed)` runs the tie and returns (n_cases, disagreements); C01-C04 can call it to add
-"engine decision tables" to their correspondence.
+Part 2 (ops `x…`, Model/EngineXfer.lean): the TRANSFER LEAVES with a real temp directory — the real `make_temp_file`,
+`download_changed`, `upload_synced`, `create_synced`/`_create_synced`, `mkdir_synced`/`unsafe_mkdir_synced`, `clean_temps`,
+and `handle_hash_diff` / `handle_path_change_or_creation` with REAL leaves underneath, on real files in two real directories
+(the manager's tempdir and the tempdir of an "earlier run"), a scripted provider (download/upload/create/mkdirs/hash_data/
+info_path/info_oid), over all combinations of (temp_file none / same hash / other hash / other path / in the old directory /
+random name) x (each directory present or deleted) x (files lying around) x (hash None / set, path None / set, file / folder)
+x provider outcome for make_temp_file and download_changed, and random samples for the rest; compared: returned value or
+exception, provider calls with the CONTENT TAG of the bytes handed over, the files left (directory, name class, '.tmp', content
+tag), the fields recorded on both sides, ignore reason, priority.
+
+`check_engine_tables(res, tier, seed)` runs both ties and returns (n_cases, disagreements); C01-C04 call `attach`.
 """
 import atexit
 import collections
@@ -42,8 +51,11 @@ ENG_FP = {"cloudsync/sync/manager.py": ["SyncManager._sync_one_entry", "SyncMana
                                         "SyncManager.handle_path_change_or_creation", "SyncManager.handle_rename", "SyncManager.handle_corrupt",
                                         "SyncManager.delete_synced", "SyncManager._handle_dir_delete_not_empty", "SyncManager.handle_hash_diff",
                                         "SyncManager.handle_changed_is_missing", "SyncManager.handle_cloud_file_not_found_error",
-                                        "SyncManager.handle_file_name_error"],
-          "cloudsync/sync/state.py": ["SideState.needs_sync", "SideState.__setattr__", "SideState.clear", "SideState.uncorrupt", "SideState.set_force_sync",
+                                        "SyncManager.handle_file_name_error", "SyncManager._temp_file", "SyncManager.make_temp_file",
+                                        "SyncManager.download_changed", "SyncManager.upload_synced", "SyncManager._create_synced",
+                                        "SyncManager.create_synced", "SyncManager.mkdir_synced", "SyncManager.unsafe_mkdir_synced",
+                                        "SyncManager.clean_temps"],
+          "cloudsync/sync/state.py": ["SideState.needs_sync", "SideState.__setattr__", "SideState.clear", "SideState.uncorrupt", "SideState.set_force_sync", "SideState.clean_temp",
                                       "SyncEntry.hash_conflict", "SyncEntry.is_creation", "SyncEntry.is_deletion", "SyncEntry.is_rename",
                                       "SyncEntry.is_path_change", "SyncEntry.ignore", "SyncEntry.punt", "SyncState.updated", "SyncState.finished",
                                       "SyncState.split", "SyncState.update_entry", "SyncState.mark_changed"]}
@@ -135,6 +147,8 @@ def enc_oracle(o):
 
 
 def enc_case(c):
+    if c["op"].startswith("x"):
+        return enc_xcase(c)
     return "%s %s %s %s %s %s %d %s %d" % (c["op"], c["side"], enc_side(c["l"]), enc_side(c["r"]), c["ord"], c["ign"], c["prio"],
                                             enc_oracle(c["o"]), c["pc"])
 
@@ -151,6 +165,11 @@ def dec_case(line):
 
 def describe_case(c):
     """the abstract entry in words (for replays / mutation reports)"""
+    if c["op"].startswith("x"):
+        return {"method": c["op"], "changed_side": c["side"], "temp_dir": enc_fs(c["fs"]), "CHANGED": enc_xside(c["c"]), "SYNCED": enc_xside(c["s"]),
+                "LOCAL": "-", "REMOTE": "-", "ignored": c["ign"], "priority": c["prio"] / 10.0, "oracle": enc_xoracle(c["o"]), "line": enc_xcase(c),
+                "legend": "side = otype/oid/path/hash/sync_hash/sync_path/exists/saved/changed/temp_file; temp_dir = <tempdir exists><old dir exists>:"
+                          "<next random>:<dir c|o><name k<path>_<hash>|r<n>><.|+ (.tmp)>=<content tag>"}
     def side(s):
         return ("oid=%s path/sync_path=%s hash/sync_hash=%s exists=%s saved=%s otype=%s changed=%s force=%s"
                 % (s["oid"], {"n": "None/None", "c": "set/None", "s": "None/set", "e": "equal", "d": "differ"}[s["p"]],
@@ -197,6 +216,7 @@ class Rig:
                     "i": IgnoreReason.IRRELEVANT}
         self.IGNR = {v: k for k, v in self.IGN.items()}
         self.fx = []
+        self.x = None
         self.o = None
         self.case = None
         self.ent = None
@@ -240,7 +260,12 @@ class Rig:
             p.listdir = lambda oid, _s=side: rig.prov_listdir(_s, oid)
             p.is_subpath_of_root = lambda path, strict=False: rig.o["inRoot"] == "T"
             p.info_oid = lambda oid, use_cache=True, _s=side: rig.prov_info_oid(_s, oid)
-            p.info_path = lambda path, use_cache=True: None
+            p.info_path = lambda path, use_cache=True, _s=side: rig.x.info_path(_s, path) if rig.x else None
+            p.download = lambda oid, f, _s=side: rig.x.download(_s, oid, f)
+            p.upload = lambda oid, f, _s=side: rig.x.upload(_s, oid, f)
+            p.create = lambda path, f, _s=side: rig.x.create(_s, path, f)
+            p.mkdirs = lambda path, _s=side: rig.x.mkdirs(_s, path)
+            p.hash_data = lambda f, _s=side: rig.x.hash_data(_s, f)
 
         class Other:
             """another entry of the state table (what the cross-entry look-ups find)"""
@@ -286,6 +311,8 @@ class Rig:
 
         class RState(st.SyncState):
             def lookup_path(self_, side, path, stale=False):
+                if rig.ctx == "mkdir":
+                    return [rig.ent, rig.x.other]
                 if rig.ctx == "delete":
                     return [rig.ent, rig.other]
                 if rig.ctx == "rename":
@@ -295,6 +322,9 @@ class Rig:
                 return super().lookup_path(side, path, stale)
 
             def lookup_oid(self_, side, oid):
+                if rig.x and rig.x.mk_lookup_pending:
+                    rig.x.mk_lookup_pending = False
+                    return rig.x.other2 if rig.x.o["alreadyDir"] else None
                 if rig.rev_active and rig.o["revOther" + "LR"[side]] == "T":
                     return rig.other
                 return super().lookup_oid(side, oid)
@@ -306,6 +336,8 @@ class Rig:
 
             def split(self_, ent):
                 rig.fx.append("split")
+                if rig.x:
+                    return (ent, 1, ent, 0)      # what split does to the entry is tied by the op `split`; here only the call counts
                 return super().split(ent)
 
         class NM:
@@ -475,9 +507,12 @@ class Rig:
         self.state = RState(self.provs)
         self.mgr = RManager(self.state, self.provs, self.translate, lambda a, b: None, NM(), sleep=(0.01, 0.01))
         self.other = Other()
+        self.xrig = None
 
     def close(self):
         st = self.st
+        if self.xrig is not None:
+            self.xrig.close()
         st.SyncEntry.punt = self._old_punt
         st.SyncEntry.get_latest = self._old_get_latest
         st.time = self._old_time
@@ -545,6 +580,8 @@ class Rig:
         return []
 
     def prov_info_oid(self, side, oid):
+        if self.x:
+            return self.x.info_oid(side, oid)
         if not self.rev_active:
             return None
         a = self.o["revInfo" + "LR"[side]]
@@ -620,6 +657,10 @@ class Rig:
 
     # -- one case ---------------------------------------------------------------------------------------------------
     def run(self, case):
+        if case["op"].startswith("x"):
+            if self.xrig is None:
+                self.xrig = XRig(self)
+            return self.xrig.run(case)
         mg, ex = self.mg, self.ex
         ent = self.realise(case)
         op = case["op"]
@@ -688,6 +729,558 @@ class Rig:
         if op in ("split",) and out != "ok":
             self.fx = []
         return "%s | %s | %s" % (out, ",".join(self.fx) if self.fx else "-", self.abstract(ent))
+
+
+# ---------------------------------------------------------------------------------------------------------------
+# part 2: the TRANSFER LEAVES with a real temp directory (Model/EngineXfer.lean, ops `x…` of the driver layer)
+#
+# A case: the changed side (L/R), a temp-directory state (does the manager's tempdir exist / does the directory of an earlier run
+# exist, files by NAME CLASS — keyed k<p>_<h> = md5(path p + msgpack(hash h)), random r<n> — final or ".tmp", each with a content
+# tag), the two sides with tagged values (path/hash/sync_hash/sync_path tags, temp_file as directory + name class), ignore reason,
+# priority, and the provider answers.  Realised with REAL files in two real directories, a REAL SyncEntry, the REAL
+# make_temp_file / download_changed / upload_synced / create_synced / mkdir_synced / clean_temps / handle_hash_diff /
+# handle_path_change_or_creation of a SyncManager subclass that overrides only cross-entry helpers, and a scripted provider.
+
+def enc_opt(v):
+    return "~" if v is None else str(v)
+
+
+def enc_name(n):
+    return "k%d_%d" % (n[1], n[2]) if n[0] == "k" else "r%d" % n[1]
+
+
+def enc_loc(l):
+    return l[0] + enc_name(l[1])
+
+
+def enc_fs(fs):
+    files = sorted("%s%s=%d" % (enc_loc((d, n)), "+" if part else ".", tag) for (d, n, part, tag) in fs["files"])
+    return "%s%s:%d:%s" % ("T" if fs["cur"] else "F", "T" if fs["old"] else "F", fs["next"], ",".join(files) if files else "-")
+
+
+def enc_xside(x):
+    return "/".join([x["ot"], "T" if x["oid"] else "F", enc_opt(x["path"]), enc_opt(x["hash"]), enc_opt(x["sh"]), enc_opt(x["sp"]),
+                     x["ex"], x["saved"], "T" if x["ch"] else "F", "~" if x["temp"] is None else enc_loc(x["temp"])])
+
+
+def enc_xoracle(o):
+    ap = o["atPath"]
+    return "/".join([o["dl"] + o["up"] + o["cr"] + o["mk"], enc_opt(o["newHash"]), enc_opt(o["infoPath"]), "T" if o["infoAfterFnf"] else "F",
+                     "T" if o["splitRet"] else "F", "~" if ap is None else ("n" if ap == "n" else str(ap)), enc_opt(o["ourHashThere"]),
+                     str(o["tp"]), "".join("T" if o[k] else "F" for k in ("dupDirChanged", "liveOther", "dupDirSynced", "fileConflict", "alreadyDir"))])
+
+
+def enc_xcase(c):
+    base = "%s %s %s %s %s %d %s" % (c["op"], enc_fs(c["fs"]), enc_xside(c["c"]), enc_xside(c["s"]), c["ign"], c["prio"], enc_xoracle(c["o"]))
+    if c["op"] == "xretry":
+        base += " %d %s" % (c["h2"], enc_xoracle(c["o2"]))
+    return base
+
+
+X_TAGS = (1, 2, 3)
+
+
+class XRig:
+    """real files + the real transfer methods; shares state / providers / patches with a Rig"""
+
+    def __init__(self, rig):
+        import hashlib
+        import msgpack
+        self.rig = rig
+        self.hashlib, self.msgpack = hashlib, msgpack
+        st, mg, ex = rig.st, rig.mg, rig.ex
+        self.base = tempfile.mkdtemp(prefix="x_", dir=Rig._tmp)
+        self.n = 0
+        self.o = None
+        self.mk_lookup_pending = False
+        x = self
+        FILE, DIRECTORY = rig.OT["f"], rig.OT["d"]
+
+        class XOther:
+            class S:
+                def __init__(self):
+                    self.otype = FILE
+                    self.exists = st.EXISTS
+                    self.oid = "oidXO"
+
+            def __init__(self, dir_changed, dir_synced, live, c):
+                self.sides = [XOther.S(), XOther.S()]
+                self.sides[c].otype = DIRECTORY if dir_changed else FILE
+                self.sides[1 - c].otype = DIRECTORY if dir_synced else FILE
+                if not live:
+                    self.sides[1 - c].exists = st.TRASHED
+
+            def __getitem__(self, i):
+                return self.sides[i]
+
+            def ignore(self, reason, previous_reasons=None):
+                rig.fx.append("disc")
+        self.XOther = XOther
+        IgnoreReason = type(rig.IGN["n"])
+
+        class XManager(mg.SyncManager):
+            """the REAL transfer leaves; only cross-entry helpers are scripted"""
+            def mkdir_synced(self_, changed, sync, translated_path):
+                old, rig.ctx = rig.ctx, "mkdir"
+                try:
+                    return super().mkdir_synced(changed, sync, translated_path)
+                finally:
+                    rig.ctx = old
+
+            def handle_split_conflict(self_, defer_ent, defer_side, replace_ent, replace_side):
+                rig.fx.append("hsc")
+                return x.o["splitRet"]
+
+            def resolve_conflict(self_, side_states):
+                rig.fx.append("resolve")
+
+            def get_folder_file_conflict(self_, sync, translated_path, synced):
+                return x.other if x.o["fileConflict"] else None
+
+            def rename_to_fix_conflict(self_, sync, side, path, temp_rename=False):
+                rig.fx.append("cf")
+                return True
+
+            def handle_file_name_error(self_, sync, synced, translated_path):
+                rig.fx.append("ne")
+                return super().handle_file_name_error(sync, synced, translated_path)
+
+            def handle_cloud_file_not_found_error(self_, changed, sync, synced):
+                rig.fx.append("fnf")
+                old, rig.ctx, rig.synced = rig.ctx, "rename", synced
+                try:
+                    return super().handle_cloud_file_not_found_error(changed, sync, synced)
+                finally:
+                    rig.ctx = old
+
+            def check_disjoint_create(self_, sync, changed, synced, translated_path):
+                return False
+
+            def check_rename_is_delete_create(self_, sync, changed):
+                return None
+
+        class NM:
+            def notify(self_, n):
+                pass
+
+            def notify_from_exception(self_, source, e, path=None):
+                pass
+        self.mgr = XManager(rig.state, rig.provs, self.translate, lambda a, b: None, NM(), sleep=(0.01, 0.01))
+        self._own_tempdir = self.mgr.tempdir
+
+    def close(self):
+        self.mgr.tempdir = self._own_tempdir
+        try:
+            self.mgr.done()
+        except Exception:  # noqa
+            pass
+        shutil.rmtree(self.base, ignore_errors=True)
+
+    # -- values <-> tags ---------------------------------------------------------------------------------------------
+    def pstr(self, side, tag):
+        return None if tag is None else "/%s/p%d" % ("LR"[side], tag)
+
+    @staticmethod
+    def hbytes(tag):
+        return None if tag is None else b"h%d" % tag
+
+    @staticmethod
+    def tag_of(v):
+        if v is None:
+            return None
+        if isinstance(v, bytes):
+            v = v.decode()
+        import re
+        m = re.search(r"(\d+)/?$", v)
+        return int(m.group(1)) if m else -1
+
+    def fname(self, name):
+        if name[0] == "k":
+            return self.hashlib.md5(bytes(self.pstr(self.c, name[1]), "utf8") + self.msgpack.dumps(self.hbytes(name[2]))).digest().hex()
+        return "rnd%029x" % name[1]
+
+    def lpath(self, loc):
+        return os.path.join(self.dirs[loc[0]], self.fname(loc[1]))
+
+    def translate(self, dest, path):
+        return self.pstr(dest, self.o["tp"])
+
+    # -- scripted provider ---------------------------------------------------------------------------------------------
+    @staticmethod
+    def ctag(data):
+        return int(data[1:]) if data.startswith(b"T") else (0 if data == b"" else -1)
+
+    def oinfo(self, side, oid, use_path=True):
+        o = self.o
+        return self.rig.OInfo(otype=self.rig.OT["f"], oid=oid, hash=self.hbytes(o["newHash"]),
+                              path=self.pstr(side, o["infoPath"]) if use_path else None)
+
+    def _raise(self, a, table):
+        ex = self.rig.ex
+        kind = table.get(a)
+        if kind == "fnf":
+            raise FileNotFoundError("scripted")
+        if kind == "perm":
+            raise PermissionError("scripted")
+        if kind == "cloudFnf":
+            raise ex.CloudFileNotFoundError("scripted")
+        if kind == "exists":
+            raise ex.CloudFileExistsError("scripted")
+        if kind == "nameErr":
+            raise ex.CloudFileNameError("scripted")
+        if kind == "corrupt":
+            raise ex.CloudCorruptError("scripted")
+        if kind == "temp":
+            raise ex.CloudTemporaryError("scripted")
+
+    def download(self, side, oid, f):
+        self.rig.fx.append("dl")
+        self._raise(self.o["dl"], {"f": "fnf", "p": "perm", "c": "cloudFnf", "x": "corrupt", "t": "temp"})
+        h = self.rig.ent[side].hash
+        t = self.tag_of(h)
+        f.write(b"T%d" % t if t else b"")
+
+    def upload(self, side, oid, f):
+        self.rig.fx.append("sent%d" % self.ctag(f.read()))
+        self._raise(self.o["up"], {"f": "fnf", "c": "cloudFnf", "e": "exists", "n": "nameErr", "x": "corrupt", "t": "temp"})
+        return self.oinfo(side, oid)
+
+    def create(self, side, path, f):
+        self.rig.fx.append("created%d" % self.ctag(f.read()))
+        self._raise(self.o["cr"], {"e": "exists", "c": "cloudFnf", "n": "nameErr", "x": "corrupt", "t": "temp"})
+        return self.oinfo(side, "oidNEW%d" % side)
+
+    def hash_data(self, side, f):
+        self.rig.fx.append("hd%d" % self.ctag(f.read()))
+        return self.hbytes(self.o["ourHashThere"])
+
+    def info_path(self, side, path):
+        if side != 1 - self.c:
+            return None                                   # the parent look-up of handle_cloud_file_not_found_error
+        self.rig.fx.append("ip")
+        ap = self.o["atPath"]
+        if ap is None:
+            return None
+        return self.rig.OInfo(otype=self.rig.OT["f"], oid="oidAT", hash=None if ap == "n" else self.hbytes(ap), path=path)
+
+    def info_oid(self, side, oid):
+        self.rig.fx.append("io")
+        return self.rig.OInfo(otype=self.rig.OT["f"], oid=oid, hash=None, path=None) if self.o["infoAfterFnf"] else None
+
+    def mkdirs(self, side, path):
+        self.rig.fx.append("mkdirs")
+        self._raise(self.o["mk"], {"e": "exists", "c": "cloudFnf", "n": "nameErr", "t": "temp"})
+        self.mk_lookup_pending = True
+        return "oidMK"
+
+    # -- realisation -----------------------------------------------------------------------------------------------------
+    def realise(self, case):
+        rig = self.rig
+        st = rig.st
+        state = rig.state
+        state.forget()
+        state._last_changed_time = 0.0
+        rig.now = 1000.0
+        self.c = c = 0 if case["side"] == "L" else 1
+        self.dirs = {"c": os.path.join(self.base, "cur"), "o": os.path.join(self.base, "old")}
+        fs = case["fs"]
+        for k, present in (("c", fs["cur"]), ("o", fs["old"])):
+            dk = self.dirs[k]
+            if os.path.isdir(dk):
+                if present:
+                    for fn in os.listdir(dk):
+                        os.unlink(os.path.join(dk, fn))
+                else:
+                    shutil.rmtree(dk)
+            elif present:
+                os.mkdir(dk)
+        for (dk, name, part, tag) in fs["files"]:
+            if os.path.isdir(self.dirs[dk]):
+                with open(os.path.join(self.dirs[dk], self.fname(name)) + (".tmp" if part else ""), "wb") as f:
+                    f.write(b"T%d" % tag if tag else b"")
+        self.known = {}
+        for pt in (0,) + X_TAGS:
+            for ht in (0,) + X_TAGS:
+                if pt and ht:
+                    self.known[self.fname(("k", pt, ht))] = "k%d_%d" % (pt, ht)
+        for i in range(fs["next"]):
+            self.known[self.fname(("r", i))] = "r%d" % i
+        self.next0 = fs["next"]
+        self.fresh = 0
+        self.mgr.tempdir = self.dirs["c"]
+        ent = st.SyncEntry(state, rig.OT[case["c"]["ot"]])
+        for sd, key in ((c, "c"), (1 - c, "s")):
+            a = case[key]
+            ss = ent[sd]
+            ss._otype = rig.OT[a["ot"]]
+            ss._oid = ("oid%d" % sd) if a["oid"] else None
+            ss._path = self.pstr(sd, a["path"])
+            ss._sync_path = self.pstr(sd, a["sp"])
+            ss._hash = self.hbytes(a["hash"])
+            ss._sync_hash = self.hbytes(a["sh"])
+            ss._exists = rig.EX[a["ex"]]
+            ss._saved_exists = None if a["saved"] == "-" else rig.EX[a["saved"]]
+            ss._changed = 5.0 if a["ch"] else None
+            ss._temp_file = None if a["temp"] is None else self.lpath(a["temp"])
+            if ss._oid is not None:
+                state._oids[sd][ss._oid] = ent
+                if ss._path is not None:
+                    state._paths[sd].setdefault(ss._path, {})[ss._oid] = ent
+        ent._priority = case["prio"] / 10.0
+        ent._ignored = rig.IGN[case["ign"]]
+        if ent[0]._changed or ent[1]._changed:
+            state._changeset_storage.add(ent)
+        state._dirtyset.clear()
+        rig.ent = ent
+        rig.fx = []
+        rig.ctx = None
+        self.set_oracle(case["o"])
+        return ent
+
+    def set_oracle(self, o):
+        self.o = {k: v for k, v in o.items()}
+        self.o["mk"] = o["mk"]
+        self.other = self.XOther(o["dupDirChanged"], o["dupDirSynced"], o["liveOther"], self.c)
+        self.other2 = self.XOther(False, True, True, self.c)
+        self.mk_lookup_pending = False
+
+    # -- abstraction -----------------------------------------------------------------------------------------------------
+    def name_class(self, fn):
+        if fn not in self.known:
+            self.known[fn] = "r%d" % (self.next0 + self.fresh)
+            self.fresh += 1
+        return self.known[fn]
+
+    def abs_loc(self, path):
+        if path is None:
+            return "~"
+        d, fn = os.path.split(path)
+        dk = "c" if d == self.dirs["c"] else "o" if d == self.dirs["o"] else "?"
+        return dk + self.name_class(fn)
+
+    def abstract(self, ent):
+        rig = self.rig
+        sides = []
+        for sd in (self.c, 1 - self.c):
+            ss = ent[sd]
+            sides.append("/".join([rig.OTR[ss._otype], "T" if ss._oid is not None else "F", enc_opt(self.tag_of(ss._path)), enc_opt(self.tag_of(ss._hash)),
+                                   enc_opt(self.tag_of(ss._sync_hash)), enc_opt(self.tag_of(ss._sync_path)), rig.EXR[ss._exists],
+                                   "-" if ss._saved_exists is None else rig.EXR[ss._saved_exists], "T" if ss._changed else "F",
+                                   self.abs_loc(ss._temp_file)]))
+        files = []
+        for dk in ("c", "o"):
+            if os.path.isdir(self.dirs[dk]):
+                for fn in sorted(os.listdir(self.dirs[dk])):
+                    part = fn.endswith(".tmp")
+                    base = fn[:-4] if part else fn
+                    with open(os.path.join(self.dirs[dk], fn), "rb") as f:
+                        tag = self.ctag(f.read())
+                    files.append("%s%s%s=%d" % (dk, self.name_class(base), "+" if part else ".", tag))
+        fs = "%s%s:%d:%s" % ("T" if os.path.isdir(self.dirs["c"]) else "F", "T" if os.path.isdir(self.dirs["o"]) else "F",
+                             self.next0 + self.fresh, ",".join(sorted(files)) if files else "-")
+        return "%s | %s | %s | %s %d" % (fs, sides[0], sides[1], rig.IGNR[ent._ignored], int(round(ent._priority * 10)))
+
+    # -- one case -------------------------------------------------------------------------------------------------------------
+    def call(self, op, ent):
+        mg = self.rig.mg
+        m = self.mgr
+        c = self.c
+        tp = self.pstr(1 - c, self.o["tp"])
+        code = lambda r: ("N" if r is None else "?bool" if isinstance(r, bool) else {mg.FINISHED: "F", mg.PUNT: "P", mg.REQUEUE: "R"}.get(r, "?%r" % (r,)))
+        tf = lambda r: "T" if r is True else "F" if r is False else "?%r" % (r,)
+        if op == "xmktemp":
+            m.make_temp_file(ent[c])
+            return "ok"
+        if op == "xdl":
+            return tf(m.download_changed(c, ent))
+        if op == "xup":
+            return tf(m.upload_synced(c, ent))
+        if op == "xcr":
+            return code(m.create_synced(c, ent, tp))
+        if op == "xmk":
+            return code(m.mkdir_synced(c, ent, tp))
+        if op == "xclean":
+            m.clean_temps(ent)
+            return "ok"
+        if op in ("xtup", "xretry"):
+            return code(m.handle_hash_diff(ent, c, 1 - c))
+        if op == "xtcr":
+            return code(m.handle_path_change_or_creation(ent, c, 1 - c))
+        raise HarnessError("unknown op %s" % op)
+
+    def guarded(self, op, ent):
+        ex = self.rig.ex
+        try:
+            return self.call(op, ent)
+        except AssertionError:
+            return "!assertion"
+        except TypeError:
+            return "!typeError"
+        except ex.CloudTemporaryError:
+            return "!temp"
+        except ex.CloudTooManyRetriesError:
+            return "!tooMany"
+        except ex.CloudCorruptError:
+            return "!corrupt"
+        except FileNotFoundError:
+            return "!fileNotFound"
+        except NotImplementedError:
+            return "!notImpl"
+        except HarnessError:
+            raise
+        except Exception as e:  # noqa
+            return "!other:" + type(e).__name__
+
+    def run(self, case):
+        rig = self.rig
+        rig.x = self
+        try:
+            ent = self.realise(case)
+            out = self.guarded(case["op"], ent)
+            line = "%s | %s | %s" % (out, ",".join(rig.fx) if rig.fx else "-", self.abstract(ent))
+            if case["op"] == "xretry":
+                # the user edits the file again: an event assigns the new hash (state.py 1013-1014) and stamps the side
+                ent[self.c].hash = self.hbytes(case["h2"])
+                ent[self.c]._changed = 7.0
+                rig.fx = []
+                self.set_oracle(case["o2"])
+                out2 = self.guarded("xretry", ent)
+                line += " || %s | %s | %s" % (out2, ",".join(rig.fx) if rig.fx else "-", self.abstract(ent))
+            return line
+        finally:
+            rig.x = None
+            rig.ctx = None
+
+
+# -- x-case generation ---------------------------------------------------------------------------------------------------------
+
+def x_rand_side(rng, **kw):
+    exs = rng.choice(W_SIDE["exs"])
+    x = {"ot": rng.choice("fffd"), "oid": rng.random() < 0.85, "path": rng.choice((1, 1, 2, None)), "hash": rng.choice((1, 2, 3, None)),
+         "sh": rng.choice((1, 2, None)), "sp": rng.choice((1, 2, None)), "ex": exs[0], "saved": exs[1], "ch": rng.random() < 0.7, "temp": None}
+    x.update(kw)
+    return x
+
+
+def x_rand_oracle(rng, **kw):
+    o = {"dl": rng.choice("ooofpcxt"), "up": rng.choice("ooofcenxt"), "cr": rng.choice("oooeecnxt"), "mk": rng.choice("oooecnt"),
+         "newHash": rng.choice((1, 2, 3, 3, None)), "infoPath": rng.choice((1, 2, None)), "infoAfterFnf": rng.random() < 0.5,
+         "splitRet": rng.random() < 0.5, "atPath": rng.choice((None, "n", 1, 2, 3)), "ourHashThere": rng.choice((1, 2, 3, None)),
+         "tp": rng.choice((1, 2)), "dupDirChanged": rng.random() < 0.25, "liveOther": rng.random() < 0.3, "dupDirSynced": rng.random() < 0.25,
+         "fileConflict": rng.random() < 0.2, "alreadyDir": rng.random() < 0.25}
+    o.update(kw)
+    return o
+
+
+def x_temp_choices(path, hash_):
+    """temp_file candidates: none / same key in the tempdir / other hash / other path / in the directory of an earlier run / random"""
+    p = path or 1
+    h = hash_ or 1
+    oh = 2 if h == 1 else 1
+    op = 2 if p == 1 else 1
+    return [None, ("c", ("k", p, h)), ("c", ("k", p, oh)), ("c", ("k", op, h)), ("o", ("k", p, h)), ("o", ("k", p, oh)), ("c", ("r", 0)), ("o", ("r", 0))]
+
+
+def x_filesets(temp, path, hash_):
+    """which files lie around: the one temp_file names (right / wrong content), its '.tmp', a finished one for the current key"""
+    p = path or 1
+    h = hash_ or 1
+    out = [[]]
+    cur_key = ("c", ("k", p, h))
+    if temp is not None:
+        d, n = temp
+        tag = n[2] if n[0] == "k" else 0
+        out += [[(d, n, False, tag)], [(d, n, False, tag), (d, n, True, 0)], [(d, n, True, 3)], [(d, n, False, 3 if tag != 3 else 1)]]
+        if temp != cur_key:
+            out += [[(cur_key[0], cur_key[1], False, h)], [(d, n, False, tag), (cur_key[0], cur_key[1], False, h)]]
+    else:
+        out += [[(cur_key[0], cur_key[1], False, h)], [(cur_key[0], cur_key[1], True, 0)]]
+    return out
+
+
+def x_structured_cases(rng):
+    """make_temp_file / download_changed over ALL combinations of (hash None / set, path, type, where temp_file points, which of the two
+    directories exist, which files lie around, provider outcome)"""
+    for op in ("xmktemp", "xdl"):
+        for hash_ in (None, 1, 2):
+            for path in (1, None):
+                for ot in "fd":
+                    for temp in x_temp_choices(path, hash_):
+                        for cur, old in ((True, True), (True, False), (False, True), (False, False)):
+                            for files in x_filesets(temp, path, hash_):
+                                files = [f for f in files if (cur if f[0] == "c" else old)]
+                                nxt = 1 if (any(f[1][0] == "r" for f in files) or (temp and temp[1][0] == "r")) else 0
+                                for dl in ("ofpcxt" if op == "xdl" else "o"):
+                                    c = x_rand_side(rng, ot=ot, path=path, hash=hash_, temp=temp, oid=(rng.random() < 0.9))
+                                    yield {"op": op, "side": rng.choice("LR"), "fs": {"cur": cur, "old": old, "next": nxt, "files": files},
+                                           "c": c, "s": x_rand_side(rng), "ign": rng.choice("nnnci"), "prio": rng.choice((0, 0, 10, 20, 60)),
+                                           "o": x_rand_oracle(rng, dl=dl)}
+
+
+def x_random_case(rng, op):
+    side = rng.choice("LR")
+    c = x_rand_side(rng)
+    s_ = x_rand_side(rng)
+    o = x_rand_oracle(rng)
+    if op in ("xup", "xcr", "xtup", "xtcr", "xretry", "xclean", "xmk"):
+        c["ot"] = "f" if op != "xmk" else "d"
+    if op in ("xcr", "xtup", "xtcr", "xretry"):
+        c["path"] = c["path"] or 1
+    temps = x_temp_choices(c["path"], c["hash"])
+    c["temp"] = rng.choice(temps + temps[1:3])
+    if op == "xclean":
+        s_["temp"] = rng.choice(x_temp_choices(s_["path"], s_["hash"]))
+    files = list(rng.choice(x_filesets(c["temp"], c["path"], c["hash"])))
+    if op == "xclean" and s_["temp"] and rng.random() < 0.7:
+        files.append((s_["temp"][0], s_["temp"][1], False, 1))
+    if op in ("xup", "xcr") and c["temp"] is not None and rng.random() < 0.7 and not any(f[:3] == (c["temp"][0], c["temp"][1], False) for f in files):
+        files.append((c["temp"][0], c["temp"][1], False, rng.choice((0, 1, 2, 3))))
+    cur, old = rng.random() < 0.85, rng.random() < 0.7
+    prio = rng.choice((0, 0, 0, 1, 10, 11, 20, 50, 51, 60, -10))
+    if op in ("xtup", "xretry"):
+        # the guards of handle_hash_diff (1577-1594) hold; the corrupt branch (handle_corrupt) is tied by the op `hashdiff`
+        c["oid"] = True
+        s_["oid"] = True
+        if s_["ex"] in "tm":
+            s_["ex"], s_["saved"] = "e", "-"
+        o["dl"] = rng.choice("ooofpct")
+        o["up"] = rng.choice("ooofcent")
+    if op == "xretry":
+        if o["up"] == "c":
+            o["infoAfterFnf"] = True
+        if o["dl"] == "o" and o["up"] == "o":
+            o["up"] = rng.choice("fte")
+    if op == "xtcr":
+        # a pending FILE creation reaching 1238-1253 of handle_path_change_or_creation
+        c.update({"oid": True, "ex": "e", "saved": "-", "ch": True, "sp": None, "ot": "f"})
+        s_.update({"oid": False, "ex": "u", "saved": "-"})
+        o["dl"] = rng.choice("ooofpct")
+        o["cr"] = rng.choice("oooeecnt")
+    seen = set()
+    files = [f for f in files if (cur if f[0] == "c" else old) and not (f[:3] in seen or seen.add(f[:3]))]
+    nxt = 1 if (any(f[1][0] == "r" for f in files) or any(x["temp"] and x["temp"][1][0] == "r" for x in (c, s_))) else 0
+    case = {"op": op, "side": side, "fs": {"cur": cur, "old": old, "next": nxt, "files": files}, "c": c, "s": s_,
+            "ign": rng.choice("nnnnci"), "prio": prio, "o": o}
+    if op == "xretry":
+        case["h2"] = rng.choice([t for t in X_TAGS if t != c["hash"]])
+        case["o2"] = x_rand_oracle(rng, dl=rng.choice("ooof"), up=rng.choice("oooft"), tp=o["tp"])
+    return case
+
+
+X_OPS = [("xup", 3), ("xcr", 4), ("xmk", 3), ("xclean", 1), ("xtup", 3), ("xtcr", 3), ("xretry", 3)]
+
+
+def gen_xcases(tier, seed):
+    rng = rng_for(seed, "eng-xfer")
+    st_cases = list(x_structured_cases(rng))
+    if tier == "quick":
+        rng.shuffle(st_cases)
+        st_cases = st_cases[:len(st_cases) // 4]
+    unit = 400 if tier == "quick" else 6000
+    cases = st_cases
+    for op, w in X_OPS:
+        cases += [x_random_case(rng, op) for _ in range(unit * w)]
+    return cases
 
 
 # ---------------------------------------------------------------------------------------------------------------
@@ -782,7 +1375,7 @@ def gen_cases(tier, seed):
         n = unit * w
         for i in range(n):
             cases.append(rand_case(rng, op, foc[i % len(foc)]))
-    return cases
+    return cases + gen_xcases(tier, seed)
 
 
 def run_cases(cases, rig=None):
